@@ -80,7 +80,11 @@
 #endif
 #else
 #define VF_AF 0
+#ifdef VF_C12
+#define FP "C12.tree.stored." /* C12: stored values are returned byte-for-byte with their exact length */
+#else
 #define FP "C01."
+#endif
 #define FP2 "C02."
 #endif
 #define CALL(stmt) do { vf_alloc_active = VF_AF; stmt; vf_alloc_active = 0; } while (0)
